@@ -164,6 +164,33 @@ def lost_any_real(order, notif_pos, gaps, T):
     return _judge(*_run_real(len(order), script, T), len(order), tags, ts, T, "lost-any")
 
 
+# ------------------------------------------------------------------ ids of equal text / different JSON type (backend F)
+def crosstalk_ids(order, notif_pos, id0, id1):
+    """two callers whose ids are arbitrary distinct JSON values (str vs int, e.g. "7" and 7); concrete schedule"""
+    ids = [id0, id1]
+    msgs = [JSONRPCMessage(jsonrpc="2.0", id=ids[j], result={"v": j}) for j in order]
+    if notif_pos >= 0:
+        msgs.insert(notif_pos, JSONRPCMessage(jsonrpc="2.0", method="notifications/message", params={"x": 1}))
+    script = [(i + 1, msgs[i]) for i in range(len(msgs))]
+    sm._uuid_ctr[0] = 0
+    ENV.reset([])
+    sched = MiniSched(script)
+    rs, ws = sched.stream(), _Wire()
+    coros = [SM.send_message(rs, ws, "m", {"j": j}, timeout=100, message_id=ids[j]) for j in range(2)]
+    tasks = sched.run(coros)
+    for t in tasks:
+        if t.exc is None and not same_json(t.result, {"v": t.idx}):
+            return "cross-talk:caller-got-foreign-payload"
+        if t.exc is not None and not isinstance(t.exc, TimeoutError):
+            return "caller-raised:" + type(t.exc).__name__
+    if len(ws.items) != 2:
+        return "wire:not-one-request-per-caller"
+    for j in range(2):
+        if not same_json(dump(ws.items[j]).get("id"), ids[j]):
+            return "wire:id-changed"
+    return "ok"
+
+
 # ------------------------------------------------------------------ stub vs real
 def _sig(res, handovers, wire):
     return ([(k, repr(v), d) for k, v, d in res], [(j, repr(dump(it))) for j, it in handovers], len(wire))
